@@ -355,4 +355,41 @@ theorem cosW_eq (v1 v2 w : List ℝ) (h1 : v1.length = w.length) (h2 : v2.length
   rw [scalarW_eq v1 v2 w h1 h2, normW_eq v1 w h1, normW_eq v2 w h2]
   rfl
 
+/-! ### the value of the median -/
+
+theorem sortVals_pairwise_le (v : List ℝ) : (sortVals v).Pairwise (· ≤ ·) :=
+  (sortedBy_sortVals v).imp (fun {a b} h => by simpa using h)
+
+/-- over a linear order the sorted permutation is unique -/
+theorem sortVals_unique (v s : List ℝ) (hp : s.Perm v) (hs : s.Pairwise (· ≤ ·)) : sortVals v = s :=
+  List.Perm.eq_of_pairwise (le := (· ≤ ·)) (fun x y _ _ h1 h2 => le_antisymm h1 h2)
+    (sortVals_pairwise_le v) hs ((sortVals_perm v).trans hp.symm)
+
+theorem median_ge2 (v : List ℝ) (hn : 2 ≤ v.length) :
+    median v =
+      (if (sortVals v).length % 2 = 0 then (do
+        let a ← at? (sortVals v) ((sortVals v).length / 2 - 1)
+        let b ← at? (sortVals v) ((sortVals v).length / 2)
+        pure ((a + b) / Scalar.ofInt 2, sortVals v) : Res (ℝ × List ℝ))
+      else do
+        let b ← at? (sortVals v) ((sortVals v).length / 2)
+        pure (b, sortVals v)) := by
+  unfold median
+  rw [if_neg (by omega), if_neg (by omega)]
+
+theorem whichMinAll_spec (v : List ℝ) (pos : List Nat) (h : whichMinAll v = .ok pos) :
+    ∃ m, VecTools.min v = .ok m ∧ IsPositionsOf Scalar.eqb v m pos := by
+  unfold whichMinAll at h
+  by_cases hv : v.length = 0
+  · simp [hv] at h; cases h
+  · simp only [hv, if_false] at h
+    cases hm : VecTools.min v with
+    | error e => rw [hm] at h; simp [bind, Except.bind] at h
+    | ok m =>
+      rw [hm] at h
+      simp only [bind, Except.bind, pure, Except.pure, Except.ok.injEq] at h
+      refine ⟨m, rfl, ?_⟩
+      unfold IsPositionsOf
+      rw [← h, positionsOf_eq]; simp
+
 end Bpp.VecTools
